@@ -102,6 +102,25 @@ def builder_case(d, start, pop, part, all_nan_leaf=None, nan_file=False):
             bad("builder-raises:%s" % type(e).__name__, repr(e))
             return
         verify(b, stored)
+    # a leaf appears at a position that was EMPTY during the earlier cascades, written through another PyramidIO on
+    # the same directory (as a worker process or a second tool would); the same Builder cascades again
+    free = [p for p in c02.population_positions(tuple(range(4**start)), start) if p not in leaves]
+    if free:
+        phase[0] = "recascade-new-leaf-written-elsewhere"
+        newpos = free[0]
+        arr = (np.linspace(-12345.0, 67890.0, 65536).reshape(256, 256)).astype("f4")
+        stored = dict(stored)
+        stored[newpos] = arr
+        part.case(nontrivial=True)
+        try:
+            with quiet():
+                c02.write_leaves(PyramidIO(root, default_format="fits"), {newpos: arr}, "fits")
+                b.cascade(parallel=1)
+                b.write_index_rel_wtml()
+        except Exception as e:
+            bad("builder-raises:%s" % type(e).__name__, repr(e))
+            return
+        verify(b, stored)
 
 
 def mixed_precision_case(d, part):
